@@ -25,12 +25,13 @@ def main():
     ap.add_argument('--checks')
     ap.add_argument('--tier', default='quick')
     ap.add_argument('--keep', action='store_true')
+    ap.add_argument('--tag', default='')
     a = ap.parse_args()
     wt, k = a.worktree, a.k
     meta = json.load(open(os.path.join(wt, f'meta{k}.json')))
     pid = meta['property']
     d = tempfile.mkdtemp(prefix='seedrun-', dir='/tmp')
-    rec = {'id': f'{pid}-{k}', 'property': pid, 'needs_to_manifest': meta.get('needs_to_manifest')}
+    rec = {'id': f'{pid}-{a.tag}{k}', 'property': pid, 'needs_to_manifest': meta.get('needs_to_manifest')}
     try:
         sh(f'rsync -a --exclude .git --exclude htmlcov --exclude test-output /repo/ {d}/')
         shutil.copy(os.path.join(wt, f'demo{k}.py'), os.path.join(d, 'demo.py'))
@@ -56,7 +57,7 @@ def main():
                                 'detail': [l for l in lines if l.startswith('   ') or 'INCONCLUSIVE' in l][:3]}
         print(json.dumps(rec, indent=1))
         if a.keep and rec['confirmed']:
-            dst = os.path.join(HERE, 'seeded', f'{pid}-{k}')
+            dst = os.path.join(HERE, 'seeded', f'{pid}-{a.tag}{k}')
             os.makedirs(dst, exist_ok=True)
             shutil.copy(os.path.join(wt, f'patch{k}.diff'), os.path.join(dst, 'patch.diff'))
             shutil.copy(os.path.join(wt, f'demo{k}.py'), os.path.join(dst, 'demo.py'))
